@@ -410,11 +410,11 @@ def parts(tier):
                 CH("cli_limit_option", "vflib.props.c10:scen_cli_limit", {}, shards=9, timeout=170, path_timeout=30)]
     return [SMT("limits", "vflib.props.c10:kernel_limits", {}, timeout=400),
             SMT("escaping", "vflib.props.c10:kernel_escape", {}, timeout=200, mode="SMT-S"),
-            CH("e2e", "vflib.props.c10:scen_e2e", {"counts": list(range(1, 18)), "limits": list(range(0, 18))}, shards=16, timeout=250, path_timeout=30),
-            CH("two_generators", "vflib.props.c10:scen_two_generators", {}, shards=16, timeout=250, path_timeout=30),
+            CH("e2e", "vflib.props.c10:scen_e2e", {"counts": list(range(1, 18)), "limits": list(range(0, 18))}, shards=16, timeout=150, path_timeout=30),
+            CH("two_generators", "vflib.props.c10:scen_two_generators", {}, shards=16, timeout=150, path_timeout=30),
             CH("literal_field_in_context", "vflib.props.c10:scen_context", {"counts": [1, 2, 3, 4, 14, 15, 16, 17], "limits": [0, 1, 3, 10, 15, 16, 17],
-                                                                            "frameworks": ["pydantic", "sqlmodel", "dataclasses", "base"]}, shards=16, timeout=250, path_timeout=30),
-            CH("cli_limit_option", "vflib.props.c10:scen_cli_limit", {}, shards=9, timeout=250, path_timeout=30)]
+                                                                            "frameworks": ["pydantic", "sqlmodel", "dataclasses", "base"]}, shards=16, timeout=150, path_timeout=30),
+            CH("cli_limit_option", "vflib.props.c10:scen_cli_limit", {}, shards=9, timeout=150, path_timeout=30)]
 
 
 META = {
